@@ -64,6 +64,9 @@ Definition K := TOk.
 Definition E := TErr.
 Definition O_ := mkObs.
 Definition C_ := mkCase.
+Definition P_ := SPrim.
+Definition S_ := SAddStep.
+Definition SC_ := mkSCase.
 """
 
 UNKNOWN_NAME = 900      # a key of the implementation's table that is not in the alphabet
@@ -87,6 +90,7 @@ def name_of(i):
 
 
 KINDS = ("DAG", "ExecutionGraph", "Study")
+DEP_FORMS = ("", "_*", "*")        # how a dependency is written: plain, all-combinations forms
 SOURCE_NAME = "_source"
 _FACT = {}
 _HIST = {"staged": 0, "ok": 0, "errors": {}}
@@ -103,8 +107,8 @@ def _factories(DAG):
         return ExecutionGraph()
 
     def mk_study():
-        from maestrowf.datastructures.core import Study
-        return Study("c14", {"name": "c14", "description": "dag api"},
+        from maestrowf.datastructures.core import Study, StudyEnvironment
+        return Study("c14", {"name": "c14", "description": "dag api"}, studyenv=StudyEnvironment(),
                      out_path=os.path.join(common.WORK, "C14_hist", "plain"))
 
     _FACT["ExecutionGraph"] = mk_eg
@@ -142,6 +146,7 @@ class Impl:
 
     def __init__(self, DAG, n, kind="DAG"):
         self.n = n
+        self.kind = kind
         self.idx = {name_of(i): i for i in range(n)}
         if kind == "Study":
             self.idx[SOURCE_NAME] = n
@@ -154,22 +159,34 @@ class Impl:
 
     def fork(self):
         o = Impl.__new__(Impl)
-        o.n, o.idx, o.error = self.n, self.idx, self.error
+        o.n, o.idx, o.error, o.kind = self.n, self.idx, self.error, self.kind
         o.d = copy.deepcopy(self.d)
         return o
 
     def num(self, name):
         return self.idx.get(name, UNKNOWN_NAME)
 
+    def nm(self, i):
+        return SOURCE_NAME if (self.kind == "Study" and i == self.n) else name_of(i)
+
     def apply(self, op):
         """Returns the kind code: 0 returned, 1 ValueError, 2 Exception, 9 other."""
         try:
             if op[0] == "add_node":
-                self.d.add_node(name_of(op[1]), {"payload": op[1]})
+                self.d.add_node(self.nm(op[1]), {"payload": op[1]})
             elif op[0] == "add_edge":
-                self.d.add_edge(name_of(op[1]), name_of(op[2]))
+                self.d.add_edge(self.nm(op[1]), self.nm(op[2]))
             elif op[0] == "remove_edge":
-                self.d.remove_edge(name_of(op[1]), name_of(op[2]))
+                self.d.remove_edge(self.nm(op[1]), self.nm(op[2]))
+            elif op[0] == "add_step":
+                from maestrowf.datastructures.core import StudyStep
+                st = StudyStep()
+                st.name = name_of(op[1])
+                st.description = "generated"
+                st.run["cmd"] = "echo %d" % op[1]
+                if op[2] is not None:
+                    st.run["depends"] = [self.nm(d) + DEP_FORMS[f] for d, f in op[2]]
+                self.d.add_step(st)
             else:
                 raise AssertionError(op)
             return 0
@@ -621,9 +638,272 @@ def process(ck, DAG, cases, tag):
     return len(bad)
 
 
+
+# ----------------------------------------------------------------------------
+# the Study API stream: add_step (+ inherited operations) on ONE Study object
+# ----------------------------------------------------------------------------
+def g_sop(op):
+    if op[0] == "add_step":
+        return "S_ %d %s" % (op[1], g_nats([d for d, _ in (op[2] or [])]))
+    return "P_ (%s)" % g_op(op)
+
+
+def g_scase(c):
+    return "SC_ %d [%s]" % (c["n"], ";".join("(%s,%s)" % (g_sop(op), g_obs(o)) for op, o in c["steps"]))
+
+
+def build_scase(DAG, n, seq, stream=""):
+    im = Impl(DAG, n, "Study")
+    steps = []
+    for op in seq:
+        k = im.apply(op)
+        steps.append([op_json(op), im.observe(k)])
+    return {"api": "study", "n": n, "steps": steps, "stream": stream, "hist": _HIST["staged"]}
+
+
+def op_json(op):
+    if op[0] == "add_step":
+        return ["add_step", op[1], None if op[2] is None else [list(d) for d in op[2]]]
+    return list(op)
+
+
+def op_tuple(op):
+    if op[0] == "add_step":
+        return ("add_step", op[1], None if op[2] is None else [tuple(d) for d in op[2]])
+    return tuple(op)
+
+
+def dep_lists(names, maxlen, forms=(0,)):
+    out = [[]]
+    cur = [[]]
+    for _ in range(maxlen):
+        cur = [l + [(d, f)] for l in cur for d in names for f in forms]
+        out += cur
+    return out
+
+
+def study_exhaustive(DAG, n, L, maxdeps, hist, stream):
+    """Every sequence of <= L add_step calls over n names whose depends lists
+    have <= maxdeps entries over the same names (so: valid, unknown, self at
+    every position, duplicates), each followed by one cycle-probing tail."""
+    ops = [("add_step", x, dl) for x in range(n) for dl in dep_lists(range(n), maxdeps)]
+    seqs = [[]]
+    allseq = []
+    for _ in range(L):
+        seqs = [s_ + [o] for s_ in seqs for o in ops]
+        allseq += seqs
+    tail = [("add_edge", 1 % n, 0), ("add_edge", 0, 1 % n), ("add_step", n - 1, [(0, 1)])]
+    cases = [build_scase(DAG, n, s_ + tail, stream) for s_ in allseq]
+    # the three ways of writing a dependency, one call
+    for x in range(n):
+        for dl in dep_lists(range(n), min(2, maxdeps), forms=(0, 1, 2)):
+            if any(f for _, f in dl):
+                cases.append(build_scase(DAG, n, [("add_step", (x + 1) % n, [])] + [("add_step", x, dl)] + tail[:2], stream))
+    hist["%s n=%d: add_step sequences of length<=%d, depends lists of length<=%d" % (stream, n, L, maxdeps)] = len(cases)
+    return cases
+
+
+def study_random_sequence(rng, n, length):
+    """Mostly add_step in a sensible order, with every rejection kind mixed in,
+    and inherited DAG operations (also from/to _source = name n) in between."""
+    ops, present = [], []
+    while len(ops) < length:
+        r = rng.random()
+        if r < 0.62:
+            fresh = [x for x in range(n) if x not in present]
+            x = rng.choice(fresh) if fresh and rng.random() < 0.85 else rng.randrange(n)
+            k = rng.choice([0, 1, 1, 2, 2, 3, 4])
+            deps = []
+            for _ in range(k):
+                q = rng.random()
+                if q < 0.6 and present:
+                    d = rng.choice(present)                 # a step that exists (or was half-added)
+                elif q < 0.75:
+                    d = x                                   # itself
+                elif q < 0.9:
+                    d = rng.randrange(n)                    # maybe unknown
+                elif deps:
+                    d = rng.choice(deps)[0]                 # duplicate
+                else:
+                    d = rng.randrange(n)
+                deps.append((d, rng.choice([0, 0, 0, 1, 1, 2])))
+            if rng.random() < 0.1:
+                deps = None if rng.random() < 0.5 else deps     # no 'depends' key at all
+            ops.append(("add_step", x, deps))
+            if x not in present:
+                present.append(x)
+        elif r < 0.80:
+            a = rng.choice(present + [n]) if present else n
+            b = rng.choice(present) if present else rng.randrange(n)
+            ops.append(("add_edge", a, b))
+        elif r < 0.88:
+            ops.append(("add_edge", rng.randrange(n + 1), rng.randrange(n)))
+        elif r < 0.96:
+            ops.append(("remove_edge", rng.randrange(n + 1), rng.randrange(n)))
+        else:
+            ops.append(("add_node", rng.randrange(n)))
+    return ops
+
+
+def study_cases(DAG, tier, rng, hist, after_history):
+    tag = "history-study-api" if after_history else "study-api"
+    cases = []
+    if not after_history:
+        for p in sorted(glob.glob(os.path.join(common.CORPUS, PID, "study_*.json"))):
+            j = json.load(open(p))
+            j = j.get("case", j)
+            cases.append(build_scase(DAG, j["n"], [op_tuple(o) for o in j["ops"]], "corpus:" + os.path.basename(p)))
+    if tier == "thorough":
+        cases += study_exhaustive(DAG, 2, 3, 2, hist, tag + "-exh") if not after_history else []
+        cases += study_exhaustive(DAG, 3, 2, 2, hist, tag + "-exh")
+        nr = 1500
+    else:
+        cases += study_exhaustive(DAG, 2, 2, 2, hist, tag + "-exh")
+        if not after_history:
+            cases += study_exhaustive(DAG, 3, 1, 2, hist, tag + "-exh")
+        nr = 90
+    for _ in range(nr):
+        n = rng.randint(2, 7)
+        cases.append(build_scase(DAG, n, study_random_sequence(rng, n, rng.randint(2, 3 * n + 2)), tag + "-random"))
+    hist[tag + "-random sequences"] = nr
+    return cases
+
+
+def evaluate_s(tag, cases, fn="scheck_case", timeout=1500):
+    if not cases:
+        return [], []
+    lits = [g_scase(c) for c in cases]
+    size = sum(len(l) for l in lits)
+    nshard = max(1, min(8, size // 50000 + 1, len(lits)))
+    shard = max(1, min(400, (len(lits) + nshard - 1) // nshard))
+    return common.coq_failing(tag, HEADER, "scase", fn, lits, shard=shard, timeout=timeout)
+
+
+def table_wellformed(adj):
+    keys = [k for k, _ in adj]
+    return len(set(keys)) == len(keys) and all(c in keys for _, v in adj for c in v)
+
+
+def describe_s(case):
+    where = "on a Study object"
+    if case.get("hist"):
+        where += " (after %d studies were staged in the same process)" % case["hist"]
+    for op, o in case["steps"]:
+        if not table_wellformed(o["adj"]):
+            return "%s: after %s (ended with kind %s) the table %s has an edge to a node that does not exist; topological_sort: %s" % (
+                where, op, o["kind"], o["adj"], o["topo"])
+        if table_cyclic(o["adj"]):
+            return "%s: after %s the table %s contains a cycle" % (where, op, o["adj"])
+        if o["cyc"] != 0 or o["topo"][0] != "ok":
+            return "%s: after %s detect_cycle()/topological_sort() failed: %s %s" % (where, op, o["cyc"], o["topo"])
+    return "%s: C14_study_ok is false on the implementation's observables" % where
+
+
+def shrink_s(DAG, case, fn, rounds=14):
+    seq = [op_tuple(o) for o, _ in case["steps"]]
+    n = case["n"]
+    best = case
+    for _ in range(rounds):
+        cands = [seq[:i] + seq[i + 1:] for i in range(len(seq))]
+        for i, o in enumerate(seq):                      # drop one dependency
+            if o[0] == "add_step" and o[2]:
+                for j in range(len(o[2])):
+                    cands.append(seq[:i] + [("add_step", o[1], o[2][:j] + o[2][j + 1:])] + seq[i + 1:])
+        cands = [c for c in cands if c]
+        if not cands:
+            break
+        built = [build_scase(DAG, n, c, case.get("stream", "")) for c in cands]
+        bad, errs = evaluate_s("C14_sshrink", built, fn)
+        if errs or not bad:
+            break
+        seq, best = cands[bad[0]], built[bad[0]]
+    return best
+
+
+def strip_s(case):
+    return {"api": "study", "n": case["n"], "hist": case.get("hist", 0), "stream": case.get("stream", ""),
+            "ops": [op for op, _ in case["steps"]]}
+
+
+def model_text_s(case):
+    ops = ";".join(g_sop(op_tuple(o)) for o, _ in case["steps"])
+    return common.coq_eval("C14_smodel", HEADER, "model_strace %d %d (study_start %d) [%s]" % (
+        case["n"], case["n"], case["n"], ops))[-6000:]
+
+
+def process_s(ck, DAG, cases):
+    bad, errs = evaluate_s("C14_study", cases)
+    for e in errs:
+        ck.mismatch("coqc failed on cases file " + e[0], None, e[1])
+    if not bad:
+        return 0
+    cands = []
+    for i in bad[:30]:
+        c = cases[i]
+        for k in range(1, len(c["steps"]) + 1):
+            cands.append(dict(c, steps=c["steps"][:k]))
+    badc, e1 = evaluate_s("C14_study_red", cands)
+    failing = [cands[i] for i in badc]
+    badm, e2 = evaluate_s("C14_study_mon", failing, fn="smonitor_ok")
+    for e in e1 + e2:
+        ck.mismatch("coqc failed on reduced cases " + e[0], None, e[1])
+    mon = set(badm)
+    viol = [c for j, c in enumerate(failing) if j in mon]
+    mism = [c for j, c in enumerate(failing) if j not in mon]
+    key = lambda c: len(c["steps"])
+    if viol:
+        c = shrink_s(DAG, min(viol, key=key), "smonitor_ok")
+        ck.violation(describe_s(c), dict(strip_s(c), observed=c["steps"]))
+    if mism:
+        c = shrink_s(DAG, min(mism, key=key), "scheck_case")
+        ck.mismatch("model of Study.add_step and the Study class disagree", dict(strip_s(c), observed=c["steps"]),
+                    model_text_s(c))
+    return len(bad)
+
+
+def classify_step(op, prev, o):
+    if o["kind"] == 9:
+        return "add_step:other-exception"
+    keys = [k for k, _ in prev]
+    deps = op[2] or []
+    if op[1] in keys:
+        return "add_step:name-taken(ValueError)"
+    if o["kind"] == 0:
+        return "add_step:accepted" + ("(no depends -> _source)" if not deps else "")
+    for i, (d, _) in enumerate(deps):
+        if d == op[1]:
+            return "add_step:self-dependency at position %d of %d(ValueError)" % (i, len(deps))
+        if d not in keys:
+            return "add_step:unknown dependency at position %d of %d(ValueError)" % (i, len(deps))
+    return "add_step:raised-other"
+
+
+def account_s(ck, cases, hist):
+    h = {}
+    for c in cases:
+        prev = [[c["n"], []]]
+        for op, o in c["steps"]:
+            if op[0] == "add_step":
+                k = classify_step(op, prev, o)
+                if o["kind"] == 0 and len({d for d, _ in (op[2] or [])}) < len(op[2] or []):
+                    k += "+duplicate"
+                if any(f for _, f in (op[2] or [])):
+                    h["add_step:with a _* / * dependency"] = h.get("add_step:with a _* / * dependency", 0) + 1
+            else:
+                k = "inherited %s on a study table" % op[0]
+            h[k] = h.get(k, 0) + 1
+            ck.count(("Study-api", bool(c.get("hist")), json.dumps(prev), json.dumps(op)),
+                     nontrivial=op[0] != "add_node" and len(prev) > 1)
+            prev = o["adj"]
+        ck.cov["traces_validated_against_impl"] += 1
+    hist["Study API operations by outcome"] = dict(sorted(h.items()))
+
+
 def load_corpus(DAG, kinds=("DAG",), tag="corpus"):
     cases = []
     for p in sorted(glob.glob(os.path.join(common.CORPUS, PID, "*.json"))):
+        if os.path.basename(p).startswith("study_"):
+            continue
         j = json.load(open(p))
         j = j.get("case", j)
         for kind in kinds:
@@ -747,15 +1027,24 @@ def run(ck):
     rng = random.Random(ck.seed)
     hist = {}
     t0 = time.time()
+    rng_s = random.Random(ck.seed * 7919 + 17)
+    scases = study_cases(DAG, ck.tier, rng_s, hist, after_history=False)
     cases = generate(ck, DAG, ck.tier, rng, hist)
+    scases += study_cases(DAG, ck.tier, rng_s, hist, after_history=True)
     ck.notes["impl_seconds"] = round(time.time() - t0, 1)
     account(ck, cases, hist)
+    account_s(ck, scases, hist)
+    for c in scases:
+        if c.get("stream", "").endswith("-random"):
+            ck.sample({"n": c["n"], "object": "Study", "ops": [op for op, _ in c["steps"]],
+                       "final_table": c["steps"][-1][1]["adj"]}, limit=5)
     for c in cases:
         if c.get("stream") == "random":
             ck.sample({"n": c["n"], "object": c.get("obj", "DAG"), "ops": flatten(c),
                        "final_table": c["branches"][0][-1][1]["adj"]}, limit=3)
     t1 = time.time()
     process(ck, DAG, cases, "C14")
+    process_s(ck, DAG, scases)
     ck.notes["coq_seconds"] = round(time.time() - t1, 1)
     ck.cov["rule"] = (
         "corpus; every operation sequence (add_node/add_edge/remove_edge, all argument choices incl. self, dangling, "
@@ -768,6 +1057,13 @@ def run(ck):
         "maestro.run_study) and the corpus, probe, trie and random/exotic streams run again on FRESH objects of the three "
         "kinds (history-* streams): the monitor must hold on every object whatever was done to other objects before.  The "
         "staged ExecutionGraph itself is not examined: Study.stage() disables detect_cycle on that one instance by design.  "
+        "Study API (study-api streams, before and after the stagings): sequences on ONE fresh Study object of add_step calls "
+        "(depends lists: valid, the step itself at every position, unknown step at every position, duplicates, written "
+        "plain / name_* / name*; name already taken; no depends) mixed with inherited add_edge/remove_edge/add_node, every "
+        "call wrapped in try/except and the object observed after it, returned or raised: exhaustive small scopes "
+        "(all sequences of add_step calls up to the stated length over 2 and 3 names with <=2 dependencies, each followed by "
+        "cycle-probing operations) plus seeded random sequences on 2..7 names; monitor C14_study_ok (state conjuncts of "
+        "C14_ok + table = expected_step).  "
         "evaluation = one operation applied to the real DAG "
         "class with table, values keys, result kind, detect_cycle, topological_sort, bfs_subtree and dfs_subtree of every "
         "name compared with the model and C14_ok evaluated on the implementation's observable; distinct = (table before, "
@@ -778,6 +1074,15 @@ def run(ck):
         if ck.tier == "thorough":
             return None
         h2 = {}
+        smore = study_cases(DAG, "thorough", random.Random(ck.seed + 2), h2, after_history=True)
+        sbad, _ = evaluate_s("C14_ssearch", smore, fn="smonitor_ok")
+        if sbad:
+            cands = [dict(smore[i], steps=smore[i]["steps"][:k]) for i in sbad[:10]
+                     for k in range(1, len(smore[i]["steps"]) + 1)]
+            sb, _ = evaluate_s("C14_ssearch_red", cands, fn="smonitor_ok")
+            if sb:
+                c = shrink_s(DAG, min((cands[i] for i in sb), key=lambda c: len(c["steps"])), "smonitor_ok")
+                return describe_s(c), dict(strip_s(c), observed=c["steps"])
         more = generate(ck, DAG, "thorough", random.Random(ck.seed + 1), h2)
         bad, errs = evaluate("C14_search", more, fn="monitor_ok")
         if not bad:
@@ -807,6 +1112,28 @@ def replay(ck, path):
         stage_history(random.Random(ck.seed + k), k)
     if j.get("hist"):
         print("process history: staged %d studies first: %s" % (_HIST["staged"], json.dumps(_HIST)))
+    if j.get("api") == "study":
+        c = build_scase(DAG, j["n"], [op_tuple(o) for o in j["ops"]])
+        print("implementation (Study object, add_step API):")
+        for op, o in c["steps"]:
+            print("  ", op, json.dumps(o))
+        bad_all, e1 = evaluate_s("C14_replay", [c], fn="scheck_case")
+        bad_mon, e2 = evaluate_s("C14_replay_m", [c], fn="smonitor_ok")
+        print("model:")
+        print(model_text_s(c))
+        for e in e1 + e2:
+            print("coqc error:", e[1])
+        mon_ok = not bad_mon and not e2
+        print("C14_study_ok on the implementation's observables: %s" % mon_ok)
+        print("model agrees with implementation: %s" % (not bad_all and not e1))
+        if not mon_ok:
+            print("VIOLATION property=C14 replay=%s" % path)
+            return 1
+        if bad_all or e1:
+            print("VIOLATION property=C14 replay=%s no-failing-input-found" % path)
+            return 1
+        print("C14 ok (replay)")
+        return 0
     c = build_case(DAG, j["n"], [tuple(o) for o in j.get("setup", [])],
                    [[tuple(o) for o in br] for br in j["branches"]], j.get("obj", "DAG"))
     print("implementation (%s object):" % j.get("obj", "DAG"))
